@@ -858,6 +858,12 @@ def run(check):
         return
     if helper_generics_part(check):
         return
+    # Go's acronym pass runs over whole formatted type expressions: a user type must come out the same at every position of a
+    # type expression (alone, element, map key / value, generic argument) as where it is defined (the part is shared with C09)
+    import c09
+    c09.go_acronym_part(check)
+    if check.has_failing():
+        return
     # known findings: replay the stored witnesses
     for kid, (lang, prim, target) in WITNESSES.items():
         syn = ("tuple", []) if prim == "()" else t_path(prim)
